@@ -230,14 +230,22 @@ class CaseWhen(Generic[A, B], Evaluatable[B]):
         self.default = default
 
     def _evaluate(self, value: A, options: Options) -> Evaluatable[B]:
+        chosen: MaybeMissing[Evaluatable[B]] = self.default
+        checked = []
         for condition, result in self.cases:
+            checked.append(condition)
             if condition.evaluate(options)(value):
-                return result
+                chosen = result
+                break
 
-        if self.default is not MISSING:
-            return self.default
+        if chosen is MISSING:
+            raise CaseWhenError(self.dispatch, value)
 
-        raise CaseWhenError(self.dispatch, value)
+        # The choice depends on every condition that was consulted
+        for condition in checked:
+            chosen = _DependsOn(chosen, condition)
+
+        return chosen
 
     def _bound(self, options: Options) -> Evaluatable[B]:
         return self.dispatch.bind(functools.partial(self._evaluate, options=options))
